@@ -1,11 +1,15 @@
 #!/bin/bash
 # Soak the checks on the UNCHANGED tree (snapshot of /repo HEAD) with a larger budget and another seed:
-#   vp run --with-repo -- tools/bg_soak.sh <seed> <runs> <check>...
-SEED=$1; RUNS=$2; shift 2
+#   vp run --with-repo -- tools/bg_soak.sh <seed> <runs|default> <check>...   (seed may be a comma list)
+SEEDS=$1; RUNS=$2; shift 2
 R=${VP_RUN_REPO:?needs --with-repo}
 sed -i "s#/repo/src/lib.rs#$R/src/lib.rs#" sim/Cargo.toml
 export CARGO_NET_OFFLINE=true
 (cd sim && cargo build --profile sim --offline 2>&1 | tail -1)
+if [ "$RUNS" != "default" ]; then export VERIF_RUNS=$RUNS; fi
+for SEED in $(echo $SEEDS | tr , ' '); do
+echo "== seed $SEED"
 for c in "$@"; do
-  VERIF_SEED=$SEED VERIF_RUNS=$RUNS VERIF_MIRI_SEEDS=8 ./sim/target/sim/sim check $c quick 2>&1 | grep -E 'VIOLATION|KNOWN|HARNESS|class=|^check' | cut -c1-600
+  VERIF_SEED=$SEED VERIF_MIRI_SEEDS=8 ./sim/target/sim/sim check $c quick 2>&1 | grep -E 'VIOLATION|KNOWN|HARNESS|class=|^check' | cut -c1-600
+done
 done
